@@ -24,6 +24,8 @@ Init3 == { <<None, None, None>>,
            <<None, R("b", "B", 0), R("b", "B", 0)>> }
 Init3s == { <<R("a", "A", 0), R("b", "B", 1), None>>,
             <<R("a", "A", 1), R("a", "B", 0), R("b", "A", 0)>> }
+Init3h == { <<R("a", "A", 0), R("b", "A", 1), None>>,
+            <<R("a", "A", 1), R("a", "A", 0), R("b", "A", 0)>> }
 Init3w == { <<R("a", "A", 0), R("b", "B", 1), None>>,
             <<R("c", "C", 1), R("c", "C", 0), R("b", "A", 0)>> }
 Init2w == { <<None, None>>,
@@ -36,6 +38,9 @@ Init2s == { <<None, None>>,
 Init4 == { <<None, None, None, None>>,
            <<R("a", "A", 0), R("b", "B", 0), None, R("b", "A", 0)>>,
            <<R("a", "A", 0), R("a", "B", 0), R("b", "A", 0), R("b", "B", 0)>> }
+Init4h == { <<None, None, None, None>>,
+            <<R("a", "A", 0), R("b", "A", 0), None, R("b", "A", 0)>>,
+            <<R("a", "A", 0), R("a", "A", 0), R("b", "A", 0), R("a", "A", 0)>> }
 Init4w == { <<None, None, None, None>>,
             <<R("a", "A", 0), R("b", "B", 0), R("c", "C", 0), None>>,
             <<R("a", "A", 0), R("a", "B", 1), R("b", "A", 0), R("c", "A", 1)>>,
